@@ -14,6 +14,7 @@ import (
 	"github.com/scrapli/scrapligo/driver/network"
 	"github.com/scrapli/scrapligo/driver/opoptions"
 	"github.com/scrapli/scrapligo/driver/options"
+	"github.com/scrapli/scrapligo/platform"
 	"github.com/scrapli/scrapligo/util"
 
 	"verifgo/facts"
@@ -43,6 +44,14 @@ type c04op struct {
 	// index at which WithPrivilegeLevel stands among them (0..len(extra))
 	extra []string
 	pos   int
+	// pseudo operations between the five: "gp" GetPrompt; "ref" an operation refused before anything
+	// is sent (sub = cfgs|cfg|int|cfgf with an option that returns a real error, or cfgf-missing: an
+	// unreadable file); "mc" SendCommandsFromFile on an unreadable file; "cmdsf" SendCommandsFromFile;
+	// "upd" PrivilegeLevels := the records selected by bits (patterns in spelling `variant`) +
+	// UpdatePrivileges(); "def" DefaultDesiredPriv := arg
+	sub     string
+	bits    []bool
+	variant int
 }
 
 var c04extraKinds = []string{"stop", "tmo", "nostrip", "fwc", "exact"}
@@ -91,6 +100,14 @@ type c04case struct {
 	// faultMove = k+1: the device withholds its prompt once, after its k-th mode change (0 = never):
 	// the escalate / de-escalate command HAS been executed, the client's read times out
 	faultMove int
+	// cfgd: which levels the driver is configured with at the start (nil = all); the device has all
+	cfgd []bool
+	// faultProbeOp = j+1: the FIRST prompt probe of operation j gets no prompt in time (0 = never)
+	faultProbeOp int
+	// devSecret != "": the device's secret differs from the client's: the password is rejected
+	devSecret string
+	// platform: the driver is built by platform.NewPlatform(platform) instead of network.NewDriver
+	platform string
 }
 
 // the sentinel the driver resets CurrentPriv to, as the source says now
@@ -665,9 +682,25 @@ func c04errClass(err error) string {
 }
 
 func c04privLevels(cs c04case) map[string]*network.PrivilegeLevel {
+	return c04privLevelsSel(cs, cs.cfgd, 0)
+}
+
+// c04respell: the same pattern written differently (flags reordered, a non-capturing group around
+// the body): accepts exactly the same prompts
+func c04respell(pat string, variant int) string {
+	if variant%2 == 0 || !strings.HasPrefix(pat, "(?im)") {
+		return pat
+	}
+	return "(?mi)(?:" + strings.TrimPrefix(pat, "(?im)") + ")"
+}
+
+func c04privLevelsSel(cs c04case, bits []bool, variant int) map[string]*network.PrivilegeLevel {
 	m := map[string]*network.PrivilegeLevel{}
-	for _, l := range cs.levels {
-		m[l.name] = &network.PrivilegeLevel{Name: l.name, Pattern: l.pattern, NotContains: l.notContains,
+	for i, l := range cs.levels {
+		if bits != nil && !bits[i] {
+			continue
+		}
+		m[l.name] = &network.PrivilegeLevel{Name: l.name, Pattern: c04respell(l.pattern, variant), NotContains: l.notContains,
 			PreviousPriv: l.prev, Deescalate: l.deesc, Escalate: l.esc, EscalateAuth: l.auth, EscalatePrompt: l.escPrompt}
 	}
 	return m
@@ -678,7 +711,11 @@ func c04device(cs c04case) *sim.PrivDev {
 	for _, l := range cs.levels {
 		lv = append(lv, sim.PrivLevel{Name: l.name, Prev: l.prev, Esc: l.esc, Deesc: l.deesc, Asks: l.asks, Prompt: l.prompt})
 	}
-	dev := sim.NewPrivDev(lv, cs.secret, cs.start)
+	sec := cs.secret
+	if cs.devSecret != "" {
+		sec = cs.devSecret
+	}
+	dev := sim.NewPrivDev(lv, sec, cs.start)
 	sr := vlib.NewRng(cs.segSeed)
 	switch cs.seg {
 	case 1:
@@ -698,16 +735,43 @@ func runC04case(cs c04case) (o c04obs) {
 		dev.WithholdMove = cs.faultMove - 1
 		timeout = 250 * time.Millisecond
 	}
-	dev.Start()
+	if cs.faultProbeOp > 0 {
+		dev.WithholdEmpty = c04expected(cs).probeIndex
+		timeout = 250 * time.Millisecond
+	}
+	if !(c04isScript(cs) || cs.kind == "reject") {
+		// the prompt a device shows after login. With auth bypass nothing reads it at Open: the first
+		// GetPrompt is answered by it and consecutive GetPrompts stay one prompt behind until the first
+		// SendInput re-synchronises on its echo — harmless for navigation (same mode), but a script
+		// that starts with GetPrompt / refused acquisitions judges the returned prompt itself, so
+		// those sessions start with a silent device
+		dev.Start()
+	}
 	defer func() {
 		if r := recover(); r != nil {
 			o.fatal = fmt.Sprintf("panic: %v", r)
 		}
 	}()
-	d, err := network.NewDriver("h", options.WithCustomTransport(dev), options.WithAuthBypass(),
-		options.WithPrivilegeLevels(c04privLevels(cs)), options.WithDefaultDesiredPriv(cs.def),
-		options.WithAuthSecondary(cs.secret), options.WithTimeoutOps(timeout),
-		options.WithReadDelay(50*time.Microsecond))
+	var d *network.Driver
+	var err error
+	if cs.platform != "" {
+		// the driver as the platform definition builds it (levels, default level, options of the
+		// embedded YAML); on-open / on-close steps are C17's subject and are switched off
+		var pf *platform.Platform
+		pf, err = platform.NewPlatform(cs.platform, "h", options.WithCustomTransport(dev), options.WithAuthBypass(),
+			options.WithAuthSecondary(cs.secret), options.WithTimeoutOps(timeout), options.WithReadDelay(50*time.Microsecond))
+		if err == nil {
+			d, err = pf.GetNetworkDriver()
+		}
+		if err == nil {
+			d.OnOpen, d.OnClose = nil, nil
+		}
+	} else {
+		d, err = network.NewDriver("h", options.WithCustomTransport(dev), options.WithAuthBypass(),
+			options.WithPrivilegeLevels(c04privLevels(cs)), options.WithDefaultDesiredPriv(cs.def),
+			options.WithAuthSecondary(cs.secret), options.WithTimeoutOps(timeout),
+			options.WithReadDelay(50*time.Microsecond))
+	}
 	if err != nil {
 		o.fatal = "new:" + err.Error()
 		return o
@@ -732,6 +796,60 @@ func runC04case(cs c04case) (o c04obs) {
 			os.Remove(fn)
 		case "cmd":
 			_, err = d.SendCommand(op.arg)
+		case "cmdsf":
+			var fn string
+			if tf, e := os.CreateTemp("", "c04cmd-*"); e == nil {
+				tf.WriteString(strings.Join(op.lines, "\n") + "\n")
+				tf.Close()
+				fn = tf.Name()
+			}
+			_, err = d.SendCommandsFromFile(fn)
+			os.Remove(fn)
+		case "mc":
+			_, err = d.SendCommandsFromFile("/nonexistent/c04-no-such-file")
+		case "gp":
+			var p string
+			p, err = d.GetPrompt()
+			if l := c04find(cs, dev.ModeNow()); err == nil && (l == nil || p != l.prompt) {
+				err = fmt.Errorf("GetPrompt returned %q in mode %s", p, dev.ModeNow()) // class "other"
+			}
+		case "ref":
+			bad := func(o interface{}) error {
+				if _, ok := o.(*network.OperationOptions); ok {
+					return fmt.Errorf("%w: c04 option that fails", util.ErrBadOption)
+				}
+				return util.ErrIgnoredOption
+			}
+			bo := append(append([]util.Option{}, opts...), bad)
+			switch op.sub {
+			case "cfgs":
+				_, err = d.SendConfigs(op.lines, bo...)
+			case "cfg":
+				_, err = d.SendConfig(strings.Join(op.lines, "\n"), bo...)
+			case "int":
+				_, err = d.SendInteractive([]*channel.SendInteractiveEvent{{ChannelInput: "x"}}, bo...)
+			case "cfgf":
+				var fn string
+				if tf, e := os.CreateTemp("", "c04cfg-*"); e == nil {
+					tf.WriteString(strings.Join(op.lines, "\n") + "\n")
+					tf.Close()
+					fn = tf.Name()
+				}
+				_, err = d.SendConfigsFromFile(fn, bo...)
+				os.Remove(fn)
+			default: // cfgf-missing
+				_, err = d.SendConfigsFromFile("/nonexistent/c04-no-such-file", opts...)
+			}
+			if err == nil {
+				err = util.ErrOperationError // must have been refused
+			} else if ec := errClass(err); ec == "badoption" || ec == "other" {
+				err = util.ErrNoOp // canonical class of a refusal before anything is sent
+			}
+		case "upd":
+			d.PrivilegeLevels = c04privLevelsSel(cs, op.bits, op.variant)
+			d.UpdatePrivileges()
+		case "def":
+			d.DefaultDesiredPriv = op.arg
 		case "cmds":
 			_, err = d.SendCommands(op.lines)
 		case "cfgs":
@@ -747,6 +865,9 @@ func runC04case(cs c04case) (o c04obs) {
 			}
 			_, err = d.SendInteractive(ev, opts...)
 		}
+		if op.kind == "mc" && err != nil && errClass(err) == "other" {
+			err = util.ErrNoOp // the file error, after the acquisition
+		}
 		o.errs = append(o.errs, c04errClass(err))
 		o.modes = append(o.modes, dev.ModeNow())
 		o.caches = append(o.caches, d.CurrentPriv)
@@ -754,7 +875,7 @@ func runC04case(cs c04case) (o c04obs) {
 		if ec := c04errClass(err); ec == "timeout" || ec == "connection" {
 			timeouts++
 		}
-		if (cs.faultMove == 0 && timeouts > 0) || timeouts > 2 {
+		if (cs.faultMove == 0 && cs.faultProbeOp == 0 && timeouts > 0) || timeouts > 2 {
 			break // the session is out of step; further operations would only wait for timeouts
 		}
 	}
@@ -775,6 +896,10 @@ type c04spec struct {
 	moves     int // mode changes the device made
 	faultTick int // loop iteration (over the session) in which the faulted step was issued
 	faultOp   int // operation hit by the fault (-1 none)
+	// probeIndex: which bare return of the session (0-based) is the probe that gets no prompt
+	probeIndex int
+	denied     int // passwords the device must have rejected
+	maxUp      int // longest run of consecutive de-escalations within one acquisition
 }
 
 func c04find(cs c04case, name string) *c04lvl {
@@ -841,7 +966,7 @@ func c04opLines(op c04op) []string {
 		return []string{op.arg}
 	case "cfg":
 		return strings.Split(op.arg, "\n")
-	case "acq":
+	case "acq", "mc", "gp", "ref", "upd", "def":
 		return nil
 	}
 	return op.lines
@@ -850,23 +975,107 @@ func c04opLines(op c04op) []string {
 func c04expected(cs c04case) c04spec {
 	var sp c04spec
 	sp.faultOp = -1
-	probes := 0
-	mode, cache := cs.start, ""
+	sp.probeIndex = -1
+	probes, empties := 0, 0
+	mode, cache, def := cs.start, "", cs.def
+	bits := cs.cfgd
+	mat := c04matrix(cs)
+	idx := func(name string) int {
+		for i := range cs.levels {
+			if cs.levels[i].name == name {
+				return i
+			}
+		}
+		return -1
+	}
+	known := func(name string) bool { i := idx(name); return i >= 0 && (bits == nil || bits[i]) }
+	nKnown := func() int {
+		n := 0
+		for i := range cs.levels {
+			if bits == nil || bits[i] {
+				n++
+			}
+		}
+		return n
+	}
+	undeterminable := func(m string) bool {
+		j := idx(m)
+		for i := range cs.levels {
+			if (bits == nil || bits[i]) && mat[i][j] {
+				return false
+			}
+		}
+		return true
+	}
+	same := func(e string) {
+		sp.errs = append(sp.errs, e)
+		sp.modes = append(sp.modes, mode)
+		sp.caches = append(sp.caches, cache)
+	}
+	wrapped := func(op c04op, e string) string {
+		if op.kind == "cmd" || op.kind == "cmds" || op.kind == "cmdsf" || op.kind == "mc" {
+			return "privilege" // SendCommand(s) wrap the acquisition error
+		}
+		return e
+	}
 ops:
 	for k, op := range cs.ops {
+		switch op.kind {
+		case "upd":
+			bits = op.bits
+			same("nil")
+			continue
+		case "def":
+			def = op.arg
+			same("nil")
+			continue
+		case "gp":
+			sp.log = append(sp.log, sim.LineEvent{Mode: mode, Line: ""})
+			empties++
+			same("nil")
+			continue
+		case "ref":
+			same("noop")
+			continue
+		}
 		lvl := c04opLevel(cs, op)
-		skip := (op.kind == "cmd" || op.kind == "cmds") && cache == cs.def
-		if !skip && c04find(cs, lvl) == nil {
-			sp.errs = append(sp.errs, "privilege")
-			sp.modes = append(sp.modes, mode)
-			sp.caches = append(sp.caches, cache)
+		if op.kind == "cmd" || op.kind == "cmds" || op.kind == "cmdsf" || op.kind == "mc" || (op.kind == "int" && op.priv == "") {
+			lvl = def
+		}
+		skip := (op.kind == "cmd" || op.kind == "cmds" || op.kind == "cmdsf" || op.kind == "mc") && cache == def
+		if !skip && !known(lvl) {
+			same("privilege")
+			continue
+		}
+		if !skip && undeterminable(mode) {
+			// the prompt is read and no configured level accepts it: refused, nothing else is sent
+			sp.log = append(sp.log, sim.LineEvent{Mode: mode, Line: ""})
+			empties++
+			probes++
+			same("privilege")
 			continue
 		}
 		if !skip {
 			p := c04treePath(cs, mode, lvl)
+			up := 0
 			for i, x := range p {
+				if i+1 < len(p) && c04find(cs, x).prev == p[i+1] {
+					up++
+					if up > sp.maxUp {
+						sp.maxUp = up
+					}
+				} else {
+					up = 0
+				}
 				sp.log = append(sp.log, sim.LineEvent{Mode: x, Line: ""})
 				probes++
+				empties++
+				if i == 0 && cs.faultProbeOp == k+1 {
+					// the probe gets no prompt in time: the operation fails, nothing else is sent
+					sp.probeIndex = empties - 1
+					same(wrapped(op, "timeout"))
+					continue ops
+				}
 				if i+1 < len(p) {
 					y := p[i+1]
 					if c04find(cs, x).prev == y {
@@ -875,21 +1084,30 @@ ops:
 						sp.log = append(sp.log, sim.LineEvent{Mode: x, Line: c04find(cs, y).esc})
 						if c04find(cs, y).asks {
 							sp.log = append(sp.log, sim.LineEvent{Mode: x, Line: cs.secret})
+							if cs.devSecret != "" && cs.devSecret != cs.secret {
+								// the device rejects the password and stays in x: the loop tries again
+								// until its counter exceeds twice the number of levels
+								for count := i + 1; count <= 2*nKnown(); count++ {
+									sp.log = append(sp.log, sim.LineEvent{Mode: x, Line: ""}, sim.LineEvent{Mode: x, Line: c04find(cs, y).esc},
+										sim.LineEvent{Mode: x, Line: cs.secret})
+									empties++
+									probes++
+									sp.denied++
+								}
+								sp.denied++
+								mode, cache = x, c04unknown
+								same("privilege")
+								continue ops
+							}
 						}
 					}
 					sp.moves++
 					if sp.moves == cs.faultMove {
 						// the device is in y now, but the step fails (prompt withheld): the operation
 						// returns the error, sends nothing more, and the cache must not name a level
-						e := "timeout"
-						if op.kind == "cmd" || op.kind == "cmds" {
-							e = "privilege" // SendCommand(s) wrap the acquisition error
-						}
-						sp.errs = append(sp.errs, e)
-						sp.modes = append(sp.modes, y)
-						sp.caches = append(sp.caches, c04unknown)
 						sp.faultTick, sp.faultOp = probes-1, k
 						mode, cache = y, c04unknown
+						same(wrapped(op, "timeout"))
 						continue ops
 					}
 				}
@@ -898,21 +1116,18 @@ ops:
 		lines := c04opLines(op)
 		for _, l := range lines {
 			sp.log = append(sp.log, sim.LineEvent{Mode: lvl, Line: l})
+			if l == "" {
+				empties++
+			}
 		}
 		e := "nil"
-		if len(lines) == 0 && (op.kind == "cmds" || op.kind == "cfgs" || op.kind == "cfg" || op.kind == "cfgf") {
+		if len(lines) == 0 && (op.kind == "cmds" || op.kind == "cmdsf" || op.kind == "mc" || op.kind == "cfgs" || op.kind == "cfg" || op.kind == "cfgf") {
 			e = "noop"
-		}
-		sp.errs = append(sp.errs, e)
-		sp.modes = append(sp.modes, lvl)
-		if skip {
-			sp.caches = append(sp.caches, cache)
-		} else {
-			sp.caches = append(sp.caches, lvl)
 		}
 		if !skip {
 			mode, cache = lvl, lvl
 		}
+		same(e)
 	}
 	return sp
 }
@@ -950,6 +1165,9 @@ func c04unamb(m [][]bool, j int) bool {
 // own prompt, levels with an ambiguous prompt have at most one neighbour, the session starts at
 // an unambiguous level, payload lines are not transition commands.
 func c04inDomain(cs c04case) bool {
+	if c04isScript(cs) || cs.kind == "reject" {
+		return true // judged by the Lean side along the script (side conditions of script_coherent)
+	}
 	m := c04matrix(cs)
 	for j, l := range cs.levels {
 		if !m[j][j] {
@@ -1036,6 +1254,18 @@ func c04opsField(ops []c04op) string {
 	var fs []string
 	for _, op := range ops {
 		switch op.kind {
+		case "gp", "ref", "mc":
+			fs = append(fs, op.kind)
+		case "upd":
+			bs := ""
+			for _, b := range op.bits {
+				bs += b2s(b)
+			}
+			fs = append(fs, "upd:"+bs)
+		case "def":
+			fs = append(fs, "def:"+c04hexS(op.arg))
+		case "cmdsf":
+			fs = append(fs, "cmds:"+c04list(op.lines))
 		case "cfgf":
 			fs = append(fs, "cfgs:"+c04list(op.lines)+":"+c04privField(op))
 		case "cmd":
@@ -1060,6 +1290,21 @@ func c04opsField(ops []c04op) string {
 func c04requestF(cs c04case, faultTick int) string {
 	return strings.Join([]string{"c04", "fsess", c04levelsField(cs), c04hexS(cs.def), c04hexS(cs.secret), c04hexS(cs.start),
 		strconv.Itoa(cs.ordSeed), c04opsField(cs.ops), strconv.Itoa(faultTick), "1"}, " ")
+}
+
+// c04requestS: a script (operations, GetPrompt, refused operations, reconfigurations) over a device
+// that may have more levels than the driver is configured with
+func c04requestS(cs c04case) string {
+	bs := ""
+	for i := range cs.levels {
+		bs += b2s(cs.cfgd == nil || cs.cfgd[i])
+	}
+	return strings.Join([]string{"c04", "script", c04levelsField(cs), bs, c04hexS(cs.def), c04hexS(cs.secret), c04hexS(cs.start),
+		strconv.Itoa(cs.ordSeed), c04opsField(cs.ops)}, " ")
+}
+
+func c04isScript(cs c04case) bool {
+	return cs.kind == "script" || cs.kind == "pfault" || cs.kind == "platform"
 }
 
 func c04request(cs c04case) string {
@@ -1170,6 +1415,20 @@ func runC04(c *ctx) {
 			cases = append(cases, c04explicit(sd, i%2, off))
 		}
 	}
+	for i := c.n(150, 1500); i > 0; i-- {
+		cases = append(cases, c04script(c.rng.U64(), i%3, 14+i%8))
+	}
+	for i := c.n(30, 300); i > 0; i-- {
+		cases = append(cases, c04pfault(c.rng.U64(), i))
+	}
+	for i := c.n(12, 100); i > 0; i-- {
+		cases = append(cases, c04reject(c.rng.U64()))
+	}
+	for _, pf := range c04platforms() {
+		for i := c.n(2, 12); i > 0; i-- {
+			cases = append(cases, c04platform(pf, c.rng.U64(), 12))
+		}
+	}
 	c04check(c, cases)
 }
 
@@ -1184,6 +1443,9 @@ func c04replay(line string) (c04case, bool) {
 			return c04case{}, false
 		}
 		return c04enum(n, t, v, trees), true
+	case len(f) == 4 && f[0] == "c04plat":
+		seed, _ := strconv.ParseUint(f[2], 10, 64)
+		return c04platform(f[1], seed, atoi(f[3])), true
 	case len(f) == 6 && f[0] == "c04case" && f[1] == "fault":
 		seed, _ := strconv.ParseUint(f[2], 10, 64)
 		return c04fault(seed, atoi(f[3]), atoi(f[4]), atoi(f[5])), true
@@ -1194,6 +1456,14 @@ func c04replay(line string) (c04case, bool) {
 		}
 		if f[1] == "fault" {
 			return c04case{}, false // needs the step index: six fields
+		}
+		switch f[1] {
+		case "script":
+			return c04script(seed, atoi(f[3]), atoi(f[4])), true
+		case "pfault":
+			return c04pfault(seed, atoi(f[3])), true
+		case "reject":
+			return c04reject(seed), true
 		}
 		if f[1] == "explicit" {
 			return c04explicit(seed, atoi(f[3])%2, atoi(f[4])), true
@@ -1228,6 +1498,16 @@ func c04check(c *ctx, cases []c04case) {
 	for i, cs := range cases {
 		if cs.kind == "fault" {
 			lines[i] = c04requestF(cs, c04expected(cs).faultTick)
+		} else if cs.kind == "reject" {
+			lines[i] = "c04 nomodel" // the model's device has the client's secret: judged by the Go oracle only
+		} else if cs.kind == "pfault" {
+			// device-side, an operation whose first probe gets no prompt is one bare return
+			m := cs
+			m.ops = append([]c04op{}, cs.ops...)
+			m.ops[cs.faultProbeOp-1] = c04op{kind: "gp"}
+			lines[i] = c04requestS(m)
+		} else if c04isScript(cs) {
+			lines[i] = c04requestS(cs)
 		} else {
 			lines[i] = c04request(cs)
 		}
@@ -1238,6 +1518,10 @@ func c04check(c *ctx, cases []c04case) {
 		f := strings.Fields(ans[i])
 		if cs.kind == "fault" {
 			c04checkFault(c, cs, o, f, lines[i], i)
+			continue
+		}
+		if cs.kind == "reject" || c04isScript(cs) {
+			c04checkScript(c, cs, o, f, lines[i], i)
 			continue
 		}
 		if len(f) != 8 {
@@ -1253,6 +1537,7 @@ func c04check(c *ctx, cases []c04case) {
 			res.Count("op:" + op.kind)
 		}
 		sp := c04expected(cs)
+		res.Count(fmt.Sprintf("max-deescalate-chain:%d", sp.maxUp))
 		hops := 0
 		for _, e := range sp.log {
 			if e.Line != "" {
